@@ -1,0 +1,118 @@
+//go:build verif
+
+// Contracts for the AWS KMS plugin (SDK v1), read by /verif/gocv (comment-only; no code).
+package kms
+
+//@ pkgalias kmsv1
+
+// kmstried(c): how many Decrypt requests regional client c has received
+//@ ghost field kmstried(KMS) int
+// every regional request may fail
+//@ iface KMS.DecryptWithContext
+//@   names ctx, input, opts
+//@   modifies kmstried(this)
+//@   ensures kmstried(this) == old(kmstried(this)) + 1
+//@   ensures err == nil ==> result != nil
+
+//@ func (keys).get
+//@   facet C17
+//@   safety C17
+//@   loop 1 invariant 0 <= iter && iter <= len(k) && (forall j int :: 0 <= j && j < iter ==> k[j].Region != region)
+//@   ensures [C17:entry-lookup-by-region] result == nil ==> (forall j int :: 0 <= j && j < len(k) ==> k[j].Region != region)
+//@   ensures [C17:entry-lookup-by-region-found] result != nil ==> (exists j int :: 0 <= j && j < len(k) && result == k[j] && k[j].Region == region)
+
+//@ spec fn hasEntry(ks keys, region string) bool = exists j int :: 0 <= j && j < len(ks) && ks[j].Region == region
+//@ spec fn distinctClients(m *AWSKMS) bool = forall a int, b int :: 0 <= a && a < b && b < len(m.Clients) ==> m.Clients[a].KMS != m.Clients[b].KMS
+
+//@ func (*AWSKMS).DecryptKey
+//@   names m, ctx, keyBytes
+//@   facet C17, C10
+//@   ensures [C10:kms-data-key-plaintext-wiped] retis(DecryptWithContext, 1, 1, nil) ==> (forall i int :: 0 <= i && i < len(ret(DecryptWithContext, 1, 0).Plaintext) ==> ret(DecryptWithContext, 1, 0).Plaintext[i] == 0)
+//@   safety C17
+//@   opt no-frame
+//@   requires m != nil && m.Crypto != nil && distinctClients(m) && (forall a int :: 0 <= a && a < len(m.Clients) ==> m.Clients[a].KMS != nil)
+//@   loop 1 invariant [C17:regions-tried-in-client-order] 0 <= iter && iter <= len(m.Clients) && (forall j int :: 0 <= j && j < iter && hasEntry(en.KMSKEKs, m.Clients[j].Region) ==> kmstried(m.Clients[j].KMS) == old(kmstried(m.Clients[j].KMS)) + 1) && (forall j int :: iter <= j && j < len(m.Clients) ==> kmstried(m.Clients[j].KMS) == old(kmstried(m.Clients[j].KMS)))
+//@   ensures (err == nil) || result == nil
+//@   ensures [C17:unwrap-fails-only-after-every-region-with-an-entry-was-tried] err != nil && retis(Unmarshal, 1, 0, nil) ==> (forall j int :: 0 <= j && j < len(m.Clients) && hasEntry(dyn(arg(Unmarshal, 1, v), *envelope).KMSKEKs, m.Clients[j].Region) ==> kmstried(m.Clients[j].KMS) == old(kmstried(m.Clients[j].KMS)) + 1)
+//@   ensures [C17:unwrap-returns-what-the-working-region-decrypted] err == nil ==> result == ret(Decrypt, 1, 0)
+//@   ensures [C17:no-region-with-an-entry-is-skipped-on-the-way] forall a int, b int :: 0 <= a && a < b && b < len(m.Clients) && kmstried(m.Clients[b].KMS) != old(kmstried(m.Clients[b].KMS)) && hasEntry(dyn(arg(Unmarshal, 1, v), *envelope).KMSKEKs, m.Clients[a].Region) ==> kmstried(m.Clients[a].KMS) == old(kmstried(m.Clients[a].KMS)) + 1
+
+//@ axiom [timers-initialised] decryptKeyTimer != nil && encryptKeyTimer != nil
+
+// ---------------- wrapping ----------------
+// kmsgen(c): how many GenerateDataKey requests regional client c has received
+//@ ghost field kmsgen(KMS) int
+//@ iface KMS.GenerateDataKeyWithContext
+//@   names ctx, input, opts
+//@   modifies kmsgen(this)
+//@   ensures kmsgen(this) == old(kmsgen(this)) + 1
+//@   ensures err == nil ==> result != nil && result.KeyId != nil
+//@ iface KMS.EncryptWithContext
+//@   names ctx, input, opts
+//@   ensures err == nil ==> result != nil
+//@ extern aws.String
+//@   names v
+//@   ensures result != nil && fresh(result) && *result == v
+
+// generateDataKey: regions are asked in client order; the first success is returned; an error means every region failed
+//@ func generateDataKey
+//@   facet C17
+//@   safety C17
+//@   opt no-frame
+//@   requires forall a int, b int :: 0 <= a && a < b && b < len(clients) ==> clients[a].KMS != clients[b].KMS
+//@   requires forall a int :: 0 <= a && a < len(clients) ==> clients[a].KMS != nil
+//@   loop 1 invariant [C17:data-key-regions-asked-in-client-order] 0 <= iter && iter <= len(clients) && (forall j int :: 0 <= j && j < iter ==> kmsgen(clients[j].KMS) == old(kmsgen(clients[j].KMS)) + 1) && (forall j int :: iter <= j && j < len(clients) ==> kmsgen(clients[j].KMS) == old(kmsgen(clients[j].KMS)))
+//@   ensures (err == nil) == (result != nil)
+//@   ensures [C17:wrap-fails-only-when-every-region-failed] err != nil ==> (forall j int :: 0 <= j && j < len(clients) ==> kmsgen(clients[j].KMS) == old(kmsgen(clients[j].KMS)) + 1)
+//@   ensures [C17:first-region-able-to-generate-is-used] err == nil ==> result == ret(GenerateDataKeyWithContext, 1, 0) && result.KeyId != nil
+//@   ensures [C17:no-region-is-skipped-on-the-way] forall a int, b int :: 0 <= a && a < b && b < len(clients) && kmsgen(clients[b].KMS) != old(kmsgen(clients[b].KMS)) ==> kmsgen(clients[a].KMS) == old(kmsgen(clients[a].KMS)) + 1
+
+// the per-region goroutine: one Encrypt request to its own region's key with the data key's plaintext; one entry for its
+// own region on success, none on failure
+//@ func encryptAllRegions$1
+//@   facet C17
+//@   safety C17
+//@   opt no-frame
+//@   requires c != nil && c.KMS != nil && resp != nil && results != nil && !chclosed(results)
+//@   ensures [C17:region-encrypts-the-data-key-under-its-own-master-key] ncalls(EncryptWithContext) == 1 && *arg(EncryptWithContext, 1, input).KeyId == c.ARN && arg(EncryptWithContext, 1, input).Plaintext == resp.Plaintext && arg(EncryptWithContext, 1, this) == c.KMS
+//@   ensures [C17:one-entry-per-successful-region] retis(EncryptWithContext, 1, 1, nil) ==> chsent(results) == old(chsent(results)) + 1 && lastsent(results).Region == c.Region && lastsent(results).ARN == c.ARN && lastsent(results).EncryptedKEK == ret(EncryptWithContext, 1, 0).CiphertextBlob
+//@   ensures [C17:no-entry-for-a-failed-region] !retis(EncryptWithContext, 1, 1, nil) ==> chsent(results) == old(chsent(results))
+
+// spawned_encryptAllRegions_1(c): goroutines started for regional client c
+//@ ghost field spawned_encryptAllRegions_1(ref) int
+//@ func encryptAllRegions
+//@   facet C17
+//@   safety C17
+//@   opt no-frame
+//@   opt allow-go
+//@   requires resp != nil && resp.KeyId != nil && (forall a int :: 0 <= a && a < len(clients) ==> clients[a].KMS != nil)
+//@   loop 1 invariant [C17:every-region-is-served-by-its-own-client] 0 <= iter && iter <= len(clients) && results != nil && !chclosed(results) && (forall j int :: 0 <= j && j < iter && clients[j].ARN != *resp.KeyId ==> spawned_encryptAllRegions_1(clients[j]) == old(spawned_encryptAllRegions_1(clients[j])) + 1) && (forall j int :: iter <= j && j < len(clients) ==> spawned_encryptAllRegions_1(clients[j]) == old(spawned_encryptAllRegions_1(clients[j]))) && (forall k int :: 0 <= k && k < chsent(results) ==> chlog(results, k).EncryptedKEK == resp.CiphertextBlob && chlog(results, k).ARN == *resp.KeyId)
+//@   ensures [C17:one-goroutine-per-other-region-on-that-region-s-client] forall j int :: 0 <= j && j < len(clients) && clients[j].ARN != *resp.KeyId ==> spawned_encryptAllRegions_1(clients[j]) == old(spawned_encryptAllRegions_1(clients[j])) + 1
+
+// the two steps of wrapping are reached through package variables (so that tests can replace them): what EncryptKey
+// relies on, proved for the functions they are initialised with
+//@ funcspec dataKeyGen
+//@   names ctx, clients
+//@   modifies kmsgen
+//@   ensures (err == nil) == (result != nil)
+//@   ensures err == nil ==> result.KeyId != nil
+//@ funcvar generateDataKeyFunc dataKeyGen
+//@ funcspec regionEncryptor
+//@   names ctx, resp, clients
+//@   modifies spawned_encryptAllRegions_1, chsent, chclosed
+//@   ensures result != nil
+//@ funcvar encryptAllRegionsFunc regionEncryptor
+
+//@ func (*AWSKMS).EncryptKey
+//@   names m, ctx, keyBytes
+//@   facet C17, C10
+//@   safety C17
+//@   opt no-frame
+//@   requires m != nil && m.Crypto != nil
+//@   loop 1 invariant [C17:every-entry-received-is-kept] true
+//@   ensures [C17,C10:data-key-plaintext-wiped-on-every-return] retis(generateDataKeyFunc, 1, 1, nil) ==> (forall i int :: 0 <= i && i < len(ret(generateDataKeyFunc, 1, 0).Plaintext) ==> ret(generateDataKeyFunc, 1, 0).Plaintext[i] == 0)
+//@   ensures [C17:key-sealed-under-the-generated-data-key] retis(generateDataKeyFunc, 1, 1, nil) ==> ncalls(Encrypt) == 1 && arg(Encrypt, 1, data) == keyBytes && arg(Encrypt, 1, key) == ret(generateDataKeyFunc, 1, 0).Plaintext
+//@   ensures [C17:wrap-fails-only-if-no-region-generates-a-key-or-sealing-fails] err != nil ==> !retis(generateDataKeyFunc, 1, 1, nil) || !retis(Encrypt, 1, 1, nil) || !retis(Marshal, 1, 1, nil)
+//@ func (*AWSKMS).EncryptKey
+//@   ensures [C17:envelope-carries-the-sealed-key] retis(Encrypt, 1, 1, nil) ==> ncalls(Marshal) == 1 && istype(arg(Marshal, 1, v), envelope) && dyn(arg(Marshal, 1, v), envelope).EncryptedKey == ret(Encrypt, 1, 0)
+
